@@ -20,6 +20,12 @@ State = `World`: installations × named user dictionaries, and named files.
                                    <order> = comma-separated installations (`-` = none) as the harness observed it — the
                                    check copies it from the harness's answer into the driver's op → `ok|fail order=<order>`
                                    (installations whose names differ only in the last character share a sync directory)
+* `plant <F> <P> <N>`              file F appears in the sync directory as installation P's snapshot of N          → `ok` | `fail`
+* `legacy <F> <I> <N>`             file F appears in I's user data directory as the old-format dictionary N.userdb.txt → `ok` | `fail`
+* `lcat <I> <N>`                   that file, like `cat`
+* `upgrade <I> <N>`                UserDictManager::UpgradeUserDict(N) (plain-text user db as `legacy_userdb`)  → `ok` | `fail`
+* `syncall <I> <names> <order>`    UserDictManager::SynchronizeAll(); <names>, <order> as the harness observed them
+                                   → `ok|fail names=<names> order=<order>`
 * `export <I> <N> <F>` / `import <I> <N> <F>`                                           → `ok <count>` | `fail`
 * `dump <I> <N>`                   → `none` | `db m:<k>:<v>… e:<key>:<commits>:<tick>:<unpack-ok> d=<dee>…`
 * `probe`                          → `probe <Class>.<member>:init|uninit …` for the scalar/pointer members of the
@@ -106,6 +112,24 @@ def step (w : World) (line : String) : World × String :=
     if ps.all (fun p => scope p == scope (name i)) then
       let r := w.synchronize O (name i) (name n) (name f) ps
       (r.1, (if r.2 then "ok" else "fail") ++ " order=" ++ order)
+    else (w, "bad-op")
+  | ["plant", f, p, n] =>
+    let r := w.plant (name f) (name p) (name n)
+    (r.1, if r.2 then "ok" else "fail")
+  | ["legacy", f, i, n] =>
+    let r := w.setLegacy (name f) (name i) (name n)
+    (r.1, if r.2 then "ok" else "fail")
+  | ["lcat", i, n] =>
+    (w, match w.legacyFile (name i) (name n) with | some c => catFile c | none => "nofile")
+  | ["upgrade", i, n] =>
+    let r := w.upgrade O (name i) (name n)
+    (r.1, if r.2 then "ok" else "fail")
+  | ["syncall", i, names, order] =>
+    let ns := if names == "-" then [] else (names.splitOn ",").map name
+    let ps := if order == "-" then [] else (order.splitOn ",").map name
+    if ps.all (fun p => scope p == scope (name i)) then
+      let r := w.synchronizeAll O (name i) ns ps
+      (r.1, (if r.2 then "ok" else "fail") ++ " names=" ++ names ++ " order=" ++ order)
     else (w, "bad-op")
   | ["export", i, n, f] =>
     let r := w.export O (name i) (name n) (name f)
